@@ -180,9 +180,15 @@ class RootUnslicer(BaseUnslicer):
 
     def openerCheckToken(self, typebyte, size, opentype):
         if typebyte == tokens.STRING:
-            if size > self.maxIndexLength:
-                why = "STRING token is too long, %d>%d" % \
-                      (size, self.maxIndexLength)
+            limit = self.maxIndexLength
+            if tuple(opentype) == ("copyable",):
+                # the second index token of an OPEN copyable is the class
+                # name: bounded by the longest registered name, not by the
+                # longest opentype
+                for cname in list(copyable.CopyableRegistry.keys()):
+                    limit = max(limit, len(cname))
+            if size > limit:
+                why = "STRING token is too long, %d>%d" % (size, limit)
                 raise Violation(why)
         elif typebyte == tokens.VOCAB:
             return
